@@ -416,6 +416,14 @@ def r7_step_accounting(ctx: Context) -> None:
     ex = [n for n in ast.walk(fn) if isinstance(n, ast.Assign) and isinstance(n.targets[0], ast.Name) and "_last_step_time" in norm(n.value)]
     if len(ex) != 1:
         raise AnalysisError("Task.step: executed-time definition not found")
+    # a RUNNING task is stepped unless it starts after the end of this step
+    gate = [t for t in g.nodes if t.kind == "test" and "start_time" in norm(t.ast)]
+    ctx.floor("C03.R7", "not-yet-started gate in Task.step", len(gate), 1)
+    want_gate = lin.formula(ast.parse("self.state != TaskState.RUNNING or self.start_time > current_time + step_size", mode="eval").body)
+    ctx.check(lin.equivalent(lin.formula(gate[0].ast), want_gate), "C03.R7", "Task.step|skipped only if not RUNNING or starting after this step", loc(gate[0].ast),
+              "state != RUNNING or start > now + step", f"Task.step refuses to step under `{norm(gate[0].ast)[:100]}`: a running task whose start "
+              "coincides with the end of the step (e.g. a zero-length step at its start instant, the only chance of a zero-runtime task to "
+              "report completion) is skipped and never finishes")
     exn = ex[0].targets[0].id
     ok = lin.lin_of(ex[0].value) == lin.lin_of(ast.parse("current_time + step_size - self._last_step_time", mode="eval").body)
     ctx.check(ok, "C03.R7", "Task.step|executed = now + step - last step time", loc(ex[0]), norm(ex[0].value), f"executed time is `{norm(ex[0].value)}`")
@@ -457,6 +465,61 @@ def r7_step_accounting(ctx: Context) -> None:
               "time if time is not None else self._last_step_time", f"completion time is `{norm(cs[0].value) if cs else '?'}`")
 
 
+def r8_decision_reaches_task(ctx: Context) -> None:
+    ctx.rule("C03.R8", "whenever a decision becomes (or replaces) the pending TASK_PLACEMENT event of a task, the task itself is "
+                       "re-scheduled with that same decision on every path (Task.schedule sets the runtime the task will execute for)")
+    sim = Sim(ctx.repo)
+    n = 0
+    for name, m in sim.methods.items():
+        evs = [e for e in event_constructions(m, "TASK_PLACEMENT") if any(k.arg == "placement" for k in e.keywords)]
+        stores = [a for a in ast.walk(m) if isinstance(a, ast.Assign) and isinstance(a.targets[0], ast.Attribute) and a.targets[0].attr == "_placement"
+                  and not is_self_attr(a.targets[0])]
+        if not evs and not stores:
+            continue
+        g = cfgmod.build(m)
+        sched = [c for c in calls_in(m, "schedule") if isinstance(c.func, ast.Attribute) and norm(c.func.value).endswith(".task")]
+        for e in evs + stores:
+            pl = next((k.value for k in e.keywords if k.arg == "placement"), None) if isinstance(e, ast.Call) else e.value
+            if pl is None:
+                continue
+            pls = norm(pl)
+            if isinstance(e, ast.Call):
+                tk = next((k.value for k in e.keywords if k.arg == "task"), None)
+                if tk is None or norm(tk) != f"{pls}.task":
+                    continue  # re-queued copy of an event that already exists (retry paths): the task keeps its decision
+            n += 1
+            en = g.node_of(e)
+            ok = any(g.dominates(g.node_of(c), en) and norm(c.func.value) == f"{pls}.task" and len(c.args) >= 2 and norm(c.args[1]) == pls for c in sched)
+            ctx.check(ok, "C03.R8", f"{qualname(m)}|`{norm(e)[:46]}` preceded by {pls}.task.schedule(.., {pls})", loc(e),
+                      "schedule(decision) on every path to the event",
+                      f"`{norm(e)[:70]}` installs the decision `{pls}` as the task's pending placement, but some path gets here without "
+                      f"`{pls}.task.schedule(..., {pls})`: the task is placed with the new strategy's resources while it still carries "
+                      "the runtime of the previous decision")
+    ctx.floor("C03.R8", "decisions installed as pending placement events", n, 3)
+
+
+def r9_schedule_installs_decision(ctx: Context, rule: str = "C03.R9") -> None:
+    ctx.rule(rule, "Task.schedule installs the whole decision on every accepting path: the placement, its pool and the runtime "
+                   "of its strategy as the task's remaining time (a re-planned task runs for the NEW strategy's runtime)")
+    task = ctx.repo.mod(TASKS).cls("Task")
+    fn = method(task, "schedule")
+    ctx.analysed_function(f"{TASKS}::Task.schedule")
+    g = cfgmod.build(fn)
+    pl = fn.args.args[2].arg
+    wanted = {
+        "remaining time := runtime of the decided strategy": [c for c in calls_in(fn, "update_remaining_time") if c.args and norm(c.args[0]) == f"{pl}.execution_strategy.runtime"]
+        + [a for a in ast.walk(fn) if isinstance(a, ast.Assign) and any(is_self_attr(t, "_remaining_time") for t in a.targets) and norm(a.value) == f"{pl}.execution_strategy.runtime"],
+        "placement recorded": [a for a in ast.walk(fn) if isinstance(a, ast.Assign) and any(is_self_attr(t, "_scheduler_placement") for t in a.targets) and norm(a.value) == pl],
+        "pool recorded": [a for a in ast.walk(fn) if isinstance(a, ast.Assign) and any(is_self_attr(t, "_worker_pool_id") for t in a.targets) and norm(a.value) == f"{pl}.worker_pool_id"],
+    }
+    for what, nodes in wanted.items():
+        ids = {g.node_of(x).id for x in nodes}
+        ok = bool(ids) and not g.reachable_from_entry(g.ret, ids)
+        ctx.check(ok, rule, f"Task.schedule|{what} on every accepting path", loc(nodes[0]) if nodes else loc(fn), "must-pass-through",
+                  f"Task.schedule can return without `{what}`: a task that is planned again (other strategy, pool or time) keeps part of its "
+                  "previous decision, e.g. it occupies the new strategy's resources for the old strategy's runtime")
+
+
 def run(ctx: Context) -> None:
     ctx.isolate(r1_monotone_clock)
     ctx.isolate(r2_completion_time)
@@ -466,3 +529,5 @@ def run(ctx: Context) -> None:
     ctx.isolate(c16.r4_type_priorities, rule="C03.R5")
     ctx.isolate(r6_fuzz_bounds)
     ctx.isolate(r7_step_accounting)
+    ctx.isolate(r8_decision_reaches_task)
+    ctx.isolate(r9_schedule_installs_decision)
